@@ -478,7 +478,7 @@ func genSeqCase(r *rng.R) fw.Case {
 	g := &seqGen{r: r, comp: rng.Pick(r, []string{"qc", "readout", "dpl_x", "tpc-raw"}), rt: rng.Pick(r, runTypeNums),
 		role: rng.Pick(r, []string{"flp001", "epn-12", "any", "role1"}), present: map[string][]string{}, ents: sx.L(), tags: map[string]bool{}}
 	g.populate()
-	escapeProne := r.P(1, 10)
+	escapeProne := r.P(1, 4) // values with & < > " ' : substituted as supplied since the repair of autoescape_html
 	if escapeProne {
 		g.tag("seq:escape-prone-values")
 	}
